@@ -38,7 +38,7 @@ def evolve(rnd, g, ir, compatible_only):
     named = [n for _, _, n in pos if n["k"] in ("record", "enum", "fixed")]
     steps = ["reorder", "add_default", "drop_field", "rename_alias", "promote", "widen_union", "wrap_union", "enum_add", "enum_remove_default",
              "rename_type_alias", "change_ns", "field_alias_swap", "union_reorder", "hoist_def", "hoist_def", "rename_evolve_referenced",
-             "rename_evolve_referenced"]
+             "rename_evolve_referenced", "drop_named_field", "drop_named_field"]
     if not compatible_only:
         steps += ["add_nodefault", "demote", "enum_remove", "fixed_size", "rename_field", "narrow_union", "rename_type", "kind_change"] * 1
     rnd.shuffle(steps)
@@ -59,11 +59,36 @@ def evolve(rnd, g, ir, compatible_only):
                 f["default"] = {"int": 7, "long": 2 ** 40, "string": "dflt é", "boolean": True, "null": None, "double": 2.5}[ft["name"]]
             r["fields"].insert(rnd.randint(0, len(r["fields"])), f)
             return ir, st
-        elif st == "drop_field" and records:
+        elif st in ("drop_field", "drop_named_field") and records:
             r = rnd.choice(records)
-            cands = [i for i, f in enumerate(r["fields"]) if not defines_named(f["type"])]
+            if st == "drop_named_field":
+                # prefer a record that has a field whose type involves a named type (the skip functions of records, enums, fixed)
+                rich = [x for x in records if any(any(n["k"] in ("record", "enum", "fixed", "ref") for _, _, n in positions(f["type"]))
+                                                  for f in x["fields"])]
+                if not rich:
+                    continue
+                r = rnd.choice(rich)
+            # a field that defines named types can go when nothing outside it refers to them
+            def droppable(f):
+                mine = {n["full"] for _, _, n in positions(f["type"]) if n["k"] in ("record", "enum", "fixed")}
+                if not mine:
+                    return True
+                inside = sum(1 for _, _, n in positions(f["type"]) if n["k"] == "ref" and n["full"] in mine)
+                total = sum(1 for _, _, n in pos if n["k"] == "ref" and n["full"] in mine)
+                return inside == total
+            cands = [i for i, f in enumerate(r["fields"]) if droppable(f)]
+            if st == "drop_named_field":
+                cands = [i for i in cands if any(n["k"] in ("record", "enum", "fixed", "ref") for _, _, n in positions(r["fields"][i]["type"]))]
             if cands:
-                del r["fields"][rnd.choice(cands)]
+                i = rnd.choice(cands)
+                errs = [j for j in cands if any(n.get("error") or (n["k"] == "ref" and g.defs.get(n["full"], {}).get("error"))
+                                                for _, _, n in positions(r["fields"][j]["type"]))]
+                if errs and rnd.random() < 0.7:
+                    i = rnd.choice(errs)        # "error" records have a dispatch entry of their own in the skip table
+                for _, _, n in positions(r["fields"][i]["type"]):
+                    if n["k"] in ("record", "enum", "fixed"):
+                        g.defs.pop(n["full"], None)
+                del r["fields"][i]
                 return ir, st
         elif st in ("rename_alias", "rename_field") and records:
             r = rnd.choice(records)
